@@ -33,29 +33,38 @@
 EXTENDS LoaderOps
 
 (* ------------------------------------------------------------------ a small linker + loader model *)
-CONSTANTS Offs,         \* candidate offsets of pointer fields inside one 1-aligned input section
-          Rule,         \* "address"  RELR iff relr enabled and the PLACE is even        (elf_writer.rs ~1058)
-                        \* "offset"   RELR iff relr enabled and the SECTION OFFSET is even (elf.rs ~4866)
+CONSTANTS Offs,         \* candidate offsets of pointer fields inside one input section
+          Rule,         \* "code"     the rule of the tree (elf::relr_eligible, layout AND writer): RELR iff relr
+                        \*            enabled, the offset in the input section is even and the section is >= 2-aligned
+                        \* "address"  the most permissive correct rule: RELR iff relr enabled and the PLACE is even
                         \* "packed"   like "address" but entries packed into bitmaps (GNU ld style)
+                        \* "offset"   the fixed defect, kept as a broken variant TLC must reject: layout reserves
+                        \*            RELR by SECTION-OFFSET parity, the writer uses it by ADDRESS parity
           ModelBases    \* set of W64 bases
 
 VARIABLES offs,         \* chosen pointer fields: set of section offsets
+          aligned,      \* the input section is at least 2-aligned (then it starts at an even address)
           secodd,       \* the section starts at an odd address
           relrOn, out, phase
 
-mvars == <<offs, secodd, relrOn, out, phase>>
+mvars == <<offs, aligned, secodd, relrOn, out, phase>>
 
 SecBase == 4096
 AddrOf(f) == SecBase + (IF secodd THEN 1 ELSE 0) + f
 NoOverlap(S) == \A a, b \in S : a # b => (a + 8 <= b \/ b + 8 <= a)
 OffSets == {{}} \cup {S \in {{a, b, c} : a \in Offs, b \in Offs, c \in Offs} : NoOverlap(S)}
 
-AllocRelr(f) == relrOn /\ f % 2 = 0               \* layout: parity of the offset in the input section
-(* writer: parity of the place; the writer has a RELR table only if the layout reserved at least one
-   entry for the file (TableWriter::new filters an empty .relr.dyn part out) *)
-WriteRelr(f) == relrOn /\ AddrOf(f) % 2 = 0 /\ (\E g \in offs : AllocRelr(g))
+CodeRelr(f) == relrOn /\ aligned /\ f % 2 = 0       \* elf::relr_eligible
 DesignRelr(f) == relrOn /\ AddrOf(f) % 2 = 0
-UseRelr(f) == IF Rule = "offset" THEN AllocRelr(f) ELSE DesignRelr(f)
+OldAllocRelr(f) == relrOn /\ f % 2 = 0             \* old layout: parity of the offset in the input section
+(* old writer: parity of the place; it had a RELR table only if the layout reserved at least one
+   entry (TableWriter::new filters an empty .relr.dyn part out) *)
+OldWriteRelr(f) == relrOn /\ AddrOf(f) % 2 = 0 /\ (\E g \in offs : OldAllocRelr(g))
+(* what the layout reserves / what the writer consumes under each rule *)
+AllocRelr(f) == CASE Rule = "code" -> CodeRelr(f) [] Rule = "offset" -> OldAllocRelr(f) [] OTHER -> DesignRelr(f)
+WriteRelr(f) == CASE Rule = "code" -> CodeRelr(f) [] Rule = "offset" -> OldWriteRelr(f) [] OTHER -> DesignRelr(f)
+(* the table that ends up in the file: for the broken rule, what the layout reserved *)
+UseRelr(f) == AllocRelr(f)
 
 (* sort a set of naturals ascending *)
 RECURSIVE SortSet(_)
@@ -90,10 +99,11 @@ LinkOut ==
         img0 |-> [p \in ps |-> IF \E f \in offs : AddrOf(f) = p /\ UseRelr(f) THEN W64(tgt[p]) ELSE WZero64]]
 
 MInit == /\ offs \in OffSets /\ secodd \in BOOLEAN /\ relrOn \in BOOLEAN
+         /\ aligned \in BOOLEAN /\ (aligned => ~secodd)
          /\ out = [addrPlaces |-> {}, target |-> <<>>, rela |-> <<>>, relr |-> <<>>, img0 |-> <<>>]
          /\ phase = "input"
-MLink == phase = "input" /\ out' = LinkOut /\ phase' = "linked" /\ UNCHANGED <<offs, secodd, relrOn>>
-MLoad == phase = "linked" /\ phase' = "loaded" /\ UNCHANGED <<offs, secodd, relrOn, out>>
+MLink == phase = "input" /\ out' = LinkOut /\ phase' = "linked" /\ UNCHANGED <<offs, aligned, secodd, relrOn>>
+MLoad == phase = "linked" /\ phase' = "loaded" /\ UNCHANGED <<offs, aligned, secodd, relrOn, out>>
 MNext == MLink \/ MLoad \/ (phase = "loaded" /\ UNCHANGED mvars)
 MSpec == MInit /\ [][MNext]_mvars
 
@@ -103,5 +113,5 @@ MImageShift == phase = "loaded" => \A B \in ModelBases : ImageShift(out, B)
 (* entries the layout reserves (its own rule) vs entries the writer consumes (place parity): C23 *)
 NAllocRelr == Cardinality({f \in offs : AllocRelr(f)})
 NWriteRelr == Cardinality({f \in offs : WriteRelr(f)})
-MAccounting == phase = "loaded" => (Rule = "offset" => NAllocRelr = NWriteRelr)
+MAccounting == phase = "loaded" => NAllocRelr = NWriteRelr
 =============================================================================
